@@ -3,8 +3,9 @@
    skeleton of the export: paths, operations, path parameters, response keys, components; it is
    compared with the implementation's OpenAPI JSON on every accepted case of the check.
    Proved for every catalog:
-     - every HTTP interaction is the operation paths[path][method] (interactions are identified
-       by method and path, Props/C05.v);
+     - every HTTP interaction is the operation paths[path][method] - unconditionally for every
+       catalog the (model of the) builder produces, because there ids are "http METHOD path" and
+       occur once;
      - the parameters declared by a path item are exactly the {parameters} of its path;
      - the response keys of an operation are the response codes of the interaction, each once;
      - every user type is a component.
@@ -12,12 +13,21 @@
    are decided on the implementation by the search ($refs of every output are resolved; a panic
    anywhere under ToOpenAPIJson is converted to an error value by kit since fix 3970671, and the
    check still treats any panic that reaches the caller as a violation). *)
-From JS Require Import Base Bytes Scanner Directive Core Expand Catalog OpenApi C17Proofs.
+From JS Require Import Base Bytes Scanner Directive Core Expand Catalog OpenApi C17Proofs CatalogIds.
 
 Theorem C17_every_http_interaction_is_an_operation_of_its_path :
   forall is h, In (IHttp h) is -> only_one is h ->
     has_op (fill_paths is) (hi_path h) (lower_bytes (hi_method h)) (op_of h).
 Proof. exact every_http_interaction_is_an_operation. Qed.
+
+(* ... and for every catalog the builder produces that premise holds (ids are "http METHOD path",
+   each once: Proofs/CatalogIds.v, Proofs/CatalogOrder.v), so: *)
+Theorem C17_every_http_interaction_of_a_built_catalog_is_exported :
+  forall read_body banned fuel forest c,
+    build_catalog read_body banned fuel forest = COk c ->
+    forall h, In (IHttp h) (c_inters c) ->
+    has_op (fill_paths (c_inters c)) (hi_path h) (lower_bytes (hi_method h)) (op_of h).
+Proof. exact built_catalog_exports_every_http_interaction. Qed.
 
 Theorem C17_path_parameters_are_declared :
   forall is, Forall (fun it => it_params it =
@@ -40,6 +50,7 @@ Theorem C17_every_user_type_is_a_component :
 Proof. exact every_user_type_is_a_component. Qed.
 
 Print Assumptions C17_every_http_interaction_is_an_operation_of_its_path.
+Print Assumptions C17_every_http_interaction_of_a_built_catalog_is_exported.
 Print Assumptions C17_path_parameters_are_declared.
 Print Assumptions C17_response_keys_are_the_response_codes.
 Print Assumptions C17_every_user_type_is_a_component.
